@@ -187,7 +187,7 @@ def main():
         sys.exit(1 if bad else 0)
 
     # ---- 1. regenerated facts
-    ok, detail = gen_c03.regen()
+    ok, detail = gen_c03.regen(locked=True)
     c.oblige("xmaprange extracts the map-range table from /repo", ok, detail)
     table = gen_c03.load_sites() if ok and os.path.exists(gen_c03.SITES_JSON) else {"sites": [], "impure": [], "sorts": []}
     per_effect, per_kind = {}, {}
